@@ -48,7 +48,7 @@ fn main() {
     silence_panics();
     let mut out = Out::create(&out_path);
     let mut run_no = 0u64;
-    if let Some(p) = &schedules {
+    if let (Some(p), false) = (&schedules, sys == "thr" || sys == "paging") {
         let f = std::fs::File::open(p).unwrap_or_else(|e| panic!("cannot open {p}: {e}"));
         for line in std::io::BufReader::new(f).lines() {
             let line = line.unwrap();
@@ -74,6 +74,11 @@ fn main() {
         // --mode sizes:0,1,9,... selects the listing sizes
         let sizes: Vec<usize> = mode.strip_prefix("sizes:").unwrap_or("0,1,9,10,11,29,30,31,45").split(',').map(|x| x.parse().unwrap()).collect();
         paging::run_all(&mut rng, &sizes, &mut out);
+        out.finish(stats.as_deref());
+        return;
+    }
+    if sys == "thr" && schedules.is_some() {
+        thr::replay(schedules.as_ref().unwrap(), &mut out);
         out.finish(stats.as_deref());
         return;
     }
